@@ -117,6 +117,19 @@ func group[T Opcoder](opcodes []opcode[T]) ([]maskGroup[T], error) {
 // of one another. In other words, the relation of being conflicting is in
 // general non-symmetrical. This holds even in case all instructions have the
 // same length as mask of one instruction can be bitwise subset of another mask.
+// opcodesOverlap checks if there is a sequence of bytes matching both o1 and
+// o2. This happens if and only if the opcodes agree on all bits which are
+// present in masks of both of them.
+func opcodesOverlap(o1 Opcode, o2 Opcode) bool {
+	for i := 0; i < len(o1.Mask) && i < len(o2.Mask); i++ {
+		if (o1.Bytes[i]^o2.Bytes[i])&o1.Mask[i]&o2.Mask[i] != 0 {
+			return false
+		}
+	}
+
+	return true
+}
+
 func checkConflicts[T Opcoder](groups []maskGroup[T]) error {
 	// Make sure that no pair of opcodes conflicts.
 	//
@@ -131,9 +144,10 @@ func checkConflicts[T Opcoder](groups []maskGroup[T]) error {
 			}
 
 			for _, o := range gj.opcodes {
-				opc, ok := gi.matchInstruction(o.opcode.Bytes)
-				if ok {
-					return duplicateOpcodeErr(o, opc)
+				for _, opc := range gi.opcodes {
+					if opcodesOverlap(o.opcode, opc.opcode) {
+						return duplicateOpcodeErr(o, opc)
+					}
 				}
 			}
 		}
